@@ -24,6 +24,7 @@ stop_words = {
     "break",
     "class",
     "continue",
+    "dataclass",
     "def",
     "del",
     "dict",
